@@ -42,8 +42,13 @@ func checkC10(c *Ctx) {
 					closesDecCh = true
 				}
 			}
+			var cl *ssa.Function
 			if mc, ok := x.Call.Value.(*ssa.MakeClosure); ok {
-				cl := mc.Fn.(*ssa.Function)
+				cl = mc.Fn.(*ssa.Function)
+			} else if cal := staticCallee(x); cal != nil && inModule(cal) && cal.Blocks != nil {
+				cl = cal // `defer c.finishRead()`: recover() is still called directly by the deferred function
+			}
+			if cl != nil {
 				if hasRecoverIn(cl) {
 					// closeWithError on every path of the closure, with a non-nil error
 					gf := mustFlow(cl, facts{}, func(f facts, j ssa.Instruction) facts {
@@ -83,7 +88,7 @@ func checkC10(c *Ctx) {
 	c.check(closesDecCh, "C10.a", "read: defer close(decCh)", read.Pos(), "registered in the entry block, before the read loop", "the reader no longer closes decCh on exit: Close() and WaitGreeting() block for ever")
 	c.check(defersTeardown, "C10.a", "read: defer recover+closeWithError", read.Pos(), "a deferred function recovers and calls closeWithError on all of its paths", "the reader's deferred teardown does not always run closeWithError: pending commands hang after the connection is lost")
 	// ---- (a) closeWithError -------------------------------------------------
-	gf := mustFlow(cwe, facts{}, func(f facts, i ssa.Instruction) facts {
+	gf := mustFlowDeep(cwe, facts{}, func(f facts, i ssa.Instruction) facts {
 		switch x := i.(type) {
 		case *ssa.Store:
 			if r, ok := fieldOf(x.Addr); ok && r.is("Client", "pendingCmds") && isNilConst(x.Val) {
@@ -337,7 +342,7 @@ func ruleReadDeadline(c *Ctx, rule string) {
 // every phi edge is either a value tested non-nil on that edge or a load of a
 // package-level error variable.
 func knownNonNilError(fn *ssa.Function, v ssa.Value) bool {
-	gf := mustFlow(fn, facts{}, nil, func(f facts, b *ssa.BasicBlock, s int) facts { return f.with(valueEdgeFacts(b, s)...) })
+	gf := mustFlow(fn, facts{}, valueGen, func(f facts, b *ssa.BasicBlock, s int) facts { return f.with(valueEdgeFacts(b, s)...) })
 	var ok func(v ssa.Value, fs facts, seen map[ssa.Value]bool) bool
 	ok = func(v ssa.Value, fs facts, seen map[ssa.Value]bool) bool {
 		if _, isPhi := v.(*ssa.Phi); isPhi {
